@@ -625,6 +625,15 @@ def _alloc(c, prog, reach):
                         bounded = True
             c.inst("R2.bounded-allocation", "%s(%s)" % (re.sub(r"<[^<>]*>", "", name).split("::")[-1], detag(show(st))[:80]), bounded,
                    "allocation sized by a decoded integer is not dominated by a comparison with a constant bound", fn.where(t["sp"]), d)
+            # when the bound is on count * size_of::<X>(), X must be the element type of the vector being allocated
+            # (a bound computed with another type's size admits counts whose real allocation is far larger)
+            full = t.get("callee_full") or ""
+            mel = re.search(r"Vec::<(.+?)>::with_capacity$", full)
+            sizes = [t2.get("callee_full") or "" for bj, t2 in b.calls(lambda t2: callee_name(t2).endswith("mem::size_of"))]
+            if mel and sizes:
+                c.inst("R2.bound-element-size", "%s: bound uses the size of the allocated element type" % re.sub(r"<[^<>]*>", "", name).split("::")[-1],
+                       all(x == "std::mem::size_of::<%s>" % mel.group(1) for x in sizes),
+                       "allocation of Vec<%s>, bound computed with %s" % (mel.group(1), sizes), fn.where(t["sp"]), d)
     c.floor("R2.bounded-allocation", 3, "encode.rs Vec<T>/Vec<u8> decoders, pset/raw.rs key")
 
 
